@@ -177,6 +177,7 @@ def build(u):
     u.spec("codec_spec.rs")
     u.spec("lines_spec.rs")
     u.spec("codec_enc_lemmas.rs")
+    u.spec("std_extra.rs")
     u.spec("codec_all_spec.rs")
     u.spec("lines_all_spec.rs")
     b = u.item("src/encoder.rs", "const B64_CHARS: &[u8]")
